@@ -303,6 +303,10 @@ func init() {
 				if rapid.IntRange(0, 7).Draw(rt, "deep") == 0 {
 					// a very long input: the stack grows beyond its initial capacity
 					in.Toks = gen.DeepInput(rt, u.c)
+					if len(in.Toks) > 4 && rapid.Bool().Draw(rt, "deepCutShort") {
+						// cut short: the parse fails with a tall stack left behind
+						in.Toks = in.Toks[:len(in.Toks)-rapid.IntRange(1, len(in.Toks)/3).Draw(rt, "deepCut")]
+					}
 				}
 				st := HistStep{Toks: u.names(in.Toks), FailAt: -1}
 				if i > 0 && rapid.IntRange(0, 3).Draw(rt, "relatedToPrevious") == 0 {
